@@ -1,8 +1,212 @@
 import Drive.Util
-/-! Trace validator for the `policy` stream(s).  (stub: to be filled in) -/
-namespace Drive.Policy
+import RV.Model.Policy
+/-!
+Trace validator for the `policy` / `policy_f9` streams (C03, C09, policy level).
 
-def run (_h : IO.FS.Stream) : IO Verdict :=
-  return { ok := false, lines := 0, checks := 0, msg := "component policy not implemented" }
+Records (harness/policy_test.go):
+
+    pol new <maxCost>
+    add <key> <cost>                 begins an Add; the following records belong to it:
+      inc <key> <hits>                 estimate of the newcomer (only when the loop is reached)
+      fill <n> k c k c …               pairs `fillSample` appended in this round (the enumeration)
+      scan <n> k h k h …               the sample slice that was scanned, with the estimates read
+      vic <key> <cost> | rej           the round's victim, or the newcomer was turned away
+    ret <added> <n> k c …            return value of Add (victims in order); the model is run here
+    del <key> | upd <key> <cost> <costAdd delta> | clear | setmax <m>
+    cap <v> | cost <key> <v> | has <key> <0/1>
+    snap <used> <maxCost> <n> k c …  full state, keys ascending
+
+The estimator handed to the model is the finite table of the estimates observed during that
+`Add` (they must be consistent: the estimator is constant while the policy lock is held).
+Each observed enumeration must be admissible (`RV.Policy.Admissible`) and consumed entirely.
+-/
+namespace Drive.Policy
+open RV.Policy
+
+structure ObsRound where
+  fill : List KC := []
+  scan : List (Hash × Int) := []
+  vic  : Option KC := none
+  rej  : Bool := false
+
+structure Pending where
+  key  : Hash
+  cost : Int
+  inc  : Option Int := none
+  rounds : List ObsRound := []     -- newest first
+  cur  : Option ObsRound := none
+
+structure St where
+  pol  : Option Pol := none
+  pend : Option Pending := none
+
+def parsePairs : List String → Option (List KC)
+  | [] => some []
+  | k :: c :: rest =>
+    match u64? k, int? c, parsePairs rest with
+    | some k, some c, some r => some ((k, c) :: r)
+    | _, _, _ => none
+  | _ => none
+
+/-- `<n> k c k c …` -/
+def parseCounted (ws : List String) : Option (List KC) :=
+  match ws with
+  | n :: rest =>
+    match nat? n, parsePairs rest with
+    | some n, some ps => if ps.length == n then some ps else none
+    | _, _ => none
+  | [] => none
+
+def sortKC (l : List KC) : List KC := l.mergeSort (fun a b => a.1.toNat ≤ b.1.toNat)
+
+def fmtKC (l : List KC) : String :=
+  toString (l.map fun kc => (kc.1.toNat, kc.2))
+
+/-- estimates observed during one Add, checked for consistency -/
+def buildEst (obs : List (Hash × Int)) : Except String (Hash → Int) := do
+  let mut tbl : List (Hash × Int) := []
+  for (k, h) in obs do
+    match tbl.lookup k with
+    | some h' => if h' != h then throw s!"estimate of {k.toNat} observed as {h'} and as {h} during one Add"
+    | none => tbl := (k, h) :: tbl
+  let t := tbl
+  return fun k => (t.lookup k).getD 0
+
+def flush (pd : Pending) : Pending :=
+  match pd.cur with
+  | some r => { pd with rounds := r :: pd.rounds, cur := none }
+  | none => pd
+
+def checkRounds (inc : Int) : Nat → List Round → List ObsRound → Except String Unit
+  | _, [], [] => .ok ()
+  | i, r :: rs, o :: os => do
+    if r.enum != o.fill then throw s!"round {i}: internal (enum)"
+    if !r.consumedAll then
+      throw s!"round {i}: fillSample appended {fmtKC o.fill} but the model stops after {r.sample.length - r.carry.length} of them (sample kept {fmtKC r.carry})"
+    if !decide (Admissible r.before.keyCosts r.carry r.enum) then
+      throw s!"round {i}: enumeration {fmtKC r.enum} is not admissible for keyCosts {fmtKC r.before.keyCosts} with {r.carry.length} kept sample entries (distinct resident keys with their costs, stopping exactly at lfuSample or when the map is exhausted)"
+    if r.sample.map (·.1) != o.scan.map (·.1) then
+      throw s!"round {i}: scanned sample keys {o.scan.map (·.1.toNat)}, model sample {fmtKC r.sample}"
+    if r.rejected != o.rej then
+      throw s!"round {i}: implementation {if o.rej then "rejected the newcomer" else "chose a victim"}, model min=({r.min.key.toNat},{r.min.hits}) incHits={inc}"
+    match o.vic with
+    | some v =>
+      if (r.min.key, r.min.cost) != v then
+        throw s!"round {i}: victim ({v.1.toNat},{v.2}), model ({r.min.key.toNat},{r.min.cost}) at index {r.min.id} of {fmtKC r.sample}"
+    | none => pure ()
+    checkRounds inc (i + 1) rs os
+  | i, rs, os => .error s!"implementation ran {i + os.length} eviction rounds, model {i + rs.length}"
+
+def step (st : St) (_n : Nat) (ws : List String) : Except String (St × Nat) :=
+  match ws with
+  | ["pol", "new", m] =>
+    match int? m with
+    | some m => .ok ({ pol := some (Pol.empty m) }, 0)
+    | none => .error "bad pol new"
+  | ["add", k, c] =>
+    match st.pol, u64? k, int? c with
+    | some _, some k, some c =>
+      if st.pend.isSome then .error "add inside add" else .ok ({ st with pend := some { key := k, cost := c } }, 0)
+    | _, _, _ => .error "bad add"
+  | ["inc", k, h] =>
+    match st.pend, u64? k, int? h with
+    | some pd, some k, some h =>
+      if k != pd.key then .error "inc of another key" else .ok ({ st with pend := some { pd with inc := some h } }, 0)
+    | _, _, _ => .error "bad inc"
+  | "fill" :: rest =>
+    match st.pend, parseCounted rest with
+    | some pd, some ps =>
+      let pd := flush pd
+      .ok ({ st with pend := some { pd with cur := some { fill := ps } } }, 0)
+    | _, _ => .error "bad fill"
+  | "scan" :: rest =>
+    match st.pend, parseCounted rest with
+    | some pd, some ps =>
+      match pd.cur with
+      | some r => .ok ({ st with pend := some { pd with cur := some { r with scan := ps } } }, 0)
+      | none => .error "scan without fill"
+    | _, _ => .error "bad scan"
+  | ["vic", k, c] =>
+    match st.pend, u64? k, int? c with
+    | some pd, some k, some c =>
+      match pd.cur with
+      | some r => .ok ({ st with pend := some { pd with cur := some { r with vic := some (k, c) } } }, 0)
+      | none => .error "vic without round"
+    | _, _, _ => .error "bad vic"
+  | ["rej"] =>
+    match st.pend with
+    | some pd =>
+      match pd.cur with
+      | some r => .ok ({ st with pend := some { pd with cur := some { r with rej := true } } }, 0)
+      | none => .error "rej without round"
+    | none => .error "bad rej"
+  | "ret" :: a :: rest =>
+    match st.pol, st.pend, nat? a, parseCounted rest with
+    | some p, some pd, some a, some victims => do
+      let pd := flush pd
+      let rounds := pd.rounds.reverse
+      let obs := (match pd.inc with | some h => [(pd.key, h)] | none => []) ++ rounds.flatMap (·.scan)
+      let est ← buildEst obs
+      let o := p.addFull est (rounds.map (·.fill)) pd.key pd.cost
+      match o.status with
+      | .stuck => throw s!"Add({pd.key.toNat},{pd.cost}): the implementation stopped after {rounds.length} rounds, the model still needs room (used={o.pol.used}, maxCost={o.pol.maxCost})"
+      | .panic => throw s!"Add({pd.key.toNat},{pd.cost}): model panics (empty sample)"
+      | .ok => pure ()
+      if o.admitted != (a == 1) then
+        throw s!"Add({pd.key.toNat},{pd.cost}) on used={p.used} maxCost={p.maxCost}: implementation added={a}, model admitted={o.admitted}"
+      if o.victims != victims then
+        throw s!"Add({pd.key.toNat},{pd.cost}): implementation victims {fmtKC victims}, model {fmtKC o.victims}"
+      if pd.inc.isSome && o.rounds.isEmpty && !rounds.isEmpty then
+        throw s!"Add({pd.key.toNat},{pd.cost}): implementation entered the eviction loop, the model did not"
+      checkRounds (est pd.key) 0 o.rounds rounds
+      return ({ pol := some o.pol, pend := none }, 2 + 4 * rounds.length)
+    | _, _, _, _ => .error "bad ret"
+  | ["del", k] =>
+    match st.pol, u64? k with
+    | some p, some k => .ok ({ st with pol := some (p.del k) }, 0)
+    | _, _ => .error "bad del"
+  | ["upd", k, c, d] =>
+    match st.pol, u64? k, int? c, u64? d with
+    | some p, some k, some c, some d =>
+      let want := match lookup p.keyCosts k with
+        | some prev => updMetricDelta prev c
+        | none => 0#64
+      if want != d then .error s!"Update({k.toNat},{c}): costAdd metric moved by {d.toNat}, model {want.toNat}"
+      else .ok ({ st with pol := some (p.update k c) }, 1)
+    | _, _, _, _ => .error "bad upd"
+  | ["clear"] =>
+    match st.pol with
+    | some p => .ok ({ st with pol := some p.clear }, 0)
+    | none => .error "clear before new"
+  | ["setmax", m] =>
+    match st.pol, int? m with
+    | some p, some m => .ok ({ st with pol := some (p.setMaxCost m) }, 0)
+    | _, _ => .error "bad setmax"
+  | ["cap", v] =>
+    match st.pol, int? v with
+    | some p, some v => if p.cap == v then .ok (st, 1) else .error s!"Cap(): implementation {v}, model {p.cap}"
+    | _, _ => .error "bad cap"
+  | ["cost", k, v] =>
+    match st.pol, u64? k, int? v with
+    | some p, some k, some v =>
+      if p.costOf k == v then .ok (st, 1) else .error s!"Cost({k.toNat}): implementation {v}, model {p.costOf k}"
+    | _, _, _ => .error "bad cost"
+  | ["has", k, v] =>
+    match st.pol, u64? k, nat? v with
+    | some p, some k, some v =>
+      if p.has k == (v == 1) then .ok (st, 1) else .error s!"Has({k.toNat}): implementation {v}, model {p.has k}"
+    | _, _, _ => .error "bad has"
+  | "snap" :: u :: m :: rest =>
+    match st.pol, int? u, int? m, parseCounted rest with
+    | some p, some u, some m, some kcs =>
+      if st.pend.isSome then .error "snap inside add"
+      else if p.used != u then .error s!"used: implementation {u}, model {p.used}"
+      else if p.maxCost != m then .error s!"maxCost: implementation {m}, model {p.maxCost}"
+      else if sortKC p.keyCosts != kcs then .error s!"keyCosts: implementation {fmtKC kcs}, model {fmtKC (sortKC p.keyCosts)}"
+      else .ok (st, 3)
+    | _, _, _, _ => .error "bad snap"
+  | _ => .error s!"unknown record {ws}"
+
+def run (h : IO.FS.Stream) : IO Verdict := runLines h ({} : St) step
 
 end Drive.Policy
